@@ -39,7 +39,11 @@ def check_spec(name, sp, fns, consts, timeout_ms):
         return res
     P = Problem(I.tab, timeout_ms)
     obl = [dict(kind="overflow", what="no overflow: %s [%s]" % (o["what"], o["where"]), poly=o["poly"], lo=o["lo"], hi=o["hi"]) for o in I.obligations] + R.items
+    budget = float(sp.get("budget_s", 600)) * (1.0 if timeout_ms <= 60000 else 4.0)
     for o in obl:
+        if time.time() - t0 > budget:
+            res["obligations"].append(dict(what=o["what"], kind=o["kind"], verdict="unknown", note="per-spec time budget exhausted"))
+            continue
         if o["kind"] in ("range", "overflow"):
             r, model = P.prove_range(o["poly"], o["lo"], o["hi"])
         elif o["kind"] == "congruent":
@@ -125,6 +129,7 @@ def main():
     ap.add_argument("--cfg", default="fe64")
     ap.add_argument("--json", default=None)
     ap.add_argument("--prop", default=None)
+    ap.add_argument("--tier", default="quick")
     ap.add_argument("--timeout-ms", type=int, default=120000)
     a = ap.parse_args()
     t0 = time.time()
@@ -135,6 +140,10 @@ def main():
         if a.only and not re.search(a.only, name):
             continue
         if sp.get("cfg") and sp["cfg"] != a.cfg:
+            continue
+        if sp.get("experimental") and not (os.environ.get("VERIF_EXPERIMENTAL") or a.only):
+            continue
+        if sp.get("tier") == "thorough" and a.tier != "thorough" and not a.only:
             continue
         if a.prop and a.prop not in sp.get("prop", []):
             continue
